@@ -110,6 +110,34 @@ func execC05Demand(caseText string) (obs string) {
 			got = len(l)
 		}
 		return fmt.Sprintf("build=%d run=%d got=%d", build, ends-build, got)
+	case "jni":
+		// N-way inner join over counting sources under Limit(k)
+		if len(head) != 3 || len(parts) < 2 {
+			return "bad-case"
+		}
+		k, err := strconv.Atoi(head[2])
+		if err != nil {
+			return "bad-case"
+		}
+		handed := make([]int, len(parts)-1)
+		var ins []stream.Stream[kt]
+		for i, p := range parts[1:] {
+			l, err := parseKts(strings.TrimSpace(p))
+			if err != nil {
+				return "bad-case"
+			}
+			ins = append(ins, c05CountingSource(l, &handed[i]))
+		}
+		rows, err := stream.JoinMultipleSortedStreams(ins, func(a, b kt) int { return cmp.Compare(a.K, b.K) },
+			func(vs []kt) int { return len(vs) }).Limit(k).Collect(ctx)
+		if err != nil {
+			return "err"
+		}
+		hs := make([]string, len(handed))
+		for i, h := range handed {
+			hs[i] = strconv.Itoa(h)
+		}
+		return fmt.Sprintf("got=%d h=%s", len(rows), strings.Join(hs, ","))
 	case "j2i", "j2l":
 		if len(head) != 3 || len(parts) != 3 {
 			return "bad-case"
@@ -156,6 +184,44 @@ func genC05Demand(c *Ctx) {
 	// an effectively unbounded range: only a prefix is ever asked for
 	for _, take := range []string{"isempty", "first", "3"} {
 		c.Case(true, fmt.Sprintf("T ats 100000000 %s", take))
+	}
+	// N-way inner join: all pairs / triples of strictly increasing inputs over {0..3} (+ one long input that lags behind),
+	// every prefix length: a lagging input advances one element per round, it is not read on until it catches up
+	{
+		strict := c09Seqs(3, 4, 0)
+		long := []int64{0, 1, 2, 3, 4, 5, 6, 7, 8, 9, 10, 11, 12, 13, 14, 15, 16, 17, 18, 19, 20}
+		emitN := func(k int, ins ...[]int64) {
+			tag := 0
+			var parts []string
+			nonEmpty := 0
+			for _, ks := range ins {
+				x := make([]kt, len(ks))
+				for j, key := range ks {
+					x[j] = kt{key, tag}
+					tag++
+				}
+				if len(ks) > 0 {
+					nonEmpty++
+				}
+				parts = append(parts, fmtKts(x))
+			}
+			c.Case(nonEmpty >= 2, fmt.Sprintf("T jni %d | %s", k, strings.Join(parts, " | ")))
+		}
+		for k := 0; k <= 2; k++ {
+			for _, a := range strict {
+				for _, b := range strict {
+					emitN(k, a, b)
+					emitN(k, long, a, append(append([]int64(nil), b...), 1000))
+					if len(a)+len(b) <= 4 {
+						for _, d := range strict {
+							if len(d) <= 2 {
+								emitN(k, a, b, d)
+							}
+						}
+					}
+				}
+			}
+		}
 	}
 	// two-stream joins: every non-decreasing left x strictly increasing right over {0..3}, every prefix length
 	nondec := c09Seqs(3, c.Pick(3, 4), 1)
